@@ -495,6 +495,28 @@ func (ra *resAnalysis) checkFunc(f *ssa.Function, evs []consumeEvent, r *core.Re
 		}
 		return o
 	}
+	// holds: which run-time results a φ may currently stand for (flow-sensitive may-alias). A token is an
+	// SSA root value, marked old once that value has been redefined by a later loop iteration: releasing
+	// the current `result` releases every φ that holds it (bestFailures = result; ...; Redeem(result)),
+	// but not a φ that holds the result of an earlier iteration.
+	type holdTok struct {
+		v   ssa.Value
+		old bool
+	}
+	type hstate map[*ssa.Phi]map[holdTok]bool
+	hin := map[*ssa.BasicBlock]hstate{}
+	hclone := func(h hstate) hstate {
+		o := hstate{}
+		for k, v := range h {
+			m := map[holdTok]bool{}
+			for t := range v {
+				m[t] = true
+			}
+			o[k] = m
+		}
+		return o
+	}
+	var hcur hstate // the alias state the transfer function works on (set by the callers of transfer)
 	reported := map[string]bool{}
 	okSites := map[ssa.Instruction]bool{}
 	badSites := map[ssa.Instruction]bool{}
@@ -566,6 +588,28 @@ func (ra *resAnalysis) checkFunc(f *ssa.Function, evs []consumeEvent, r *core.Re
 				if _, already := s[rt]; !already {
 					s[rt] = &e
 				}
+				// every φ that may stand for the released object is released with it
+				rel := map[holdTok]bool{{rt, false}: true}
+				if ph, ok := rt.(*ssa.Phi); ok {
+					for t := range hcur[ph] {
+						if !t.old { // results of earlier iterations are not identified with each other
+							rel[t] = true
+						}
+					}
+				}
+				for ph, toks := range hcur {
+					if ssa.Value(ph) == rt {
+						continue
+					}
+					for t := range toks {
+						if rel[t] {
+							if _, already := s[ph]; !already {
+								s[ph] = &e
+							}
+							break
+						}
+					}
+				}
 			}
 			// a fresh definition of a value clears stale state (loops)
 			if v, ok := i.(ssa.Value); ok && ra.isRes(v.Type()) {
@@ -573,13 +617,20 @@ func (ra *resAnalysis) checkFunc(f *ssa.Function, evs []consumeEvent, r *core.Re
 					if _, has := evAt[i]; !has {
 						delete(s, v)
 					}
+					for _, toks := range hcur {
+						if toks[holdTok{v, false}] {
+							delete(toks, holdTok{v, false})
+							toks[holdTok{v, true}] = true
+						}
+					}
 				}
 			}
 		}
 		return s
 	}
-	edgeState := func(pred, succ *ssa.BasicBlock, out state) state {
+	edgeState := func(pred, succ *ssa.BasicBlock, out state, hout hstate) (state, hstate) {
 		s := clone(out)
+		h := hclone(hout)
 		pi := -1
 		for k, pp := range succ.Preds {
 			if pp == pred {
@@ -594,29 +645,64 @@ func (ra *resAnalysis) checkFunc(f *ssa.Function, evs []consumeEvent, r *core.Re
 			if !ra.isRes(phi.Type()) || pi < 0 {
 				continue
 			}
-			if ev, c := out[ra.root(phi.Edges[pi])]; c {
+			inc := ra.root(phi.Edges[pi])
+			if ev, c := out[inc]; c {
 				s[phi] = ev
 			} else {
 				delete(s, phi)
 			}
+			for other, ts := range h { // this φ is redefined: what still refers to its previous value is old
+				if other != phi && ts[holdTok{phi, false}] {
+					delete(ts, holdTok{phi, false})
+					ts[holdTok{phi, true}] = true
+				}
+			}
+			toks := map[holdTok]bool{}
+			if q, isPhi := inc.(*ssa.Phi); isPhi {
+				for t := range hout[q] {
+					toks[t] = true
+				}
+				toks[holdTok{q, false}] = true
+			} else if !core.IsNilConst(inc) {
+				toks[holdTok{inc, false}] = true
+			}
+			h[phi] = toks
 		}
-		return s
+		// an SSA value names its current run-time instance only where its definition dominates: past that
+		// (the loop header of the next iteration) a φ still holding it refers to an earlier instance
+		for _, ts := range h {
+			for t := range ts {
+				if t.old {
+					continue
+				}
+				if ins, ok := t.v.(ssa.Instruction); ok && ins.Block() != nil && !ins.Block().Dominates(succ) {
+					delete(ts, t)
+					ts[holdTok{t.v, true}] = true
+				}
+			}
+		}
+		return s, h
 	}
 	in[f.Blocks[0]] = state{}
+	hin[f.Blocks[0]] = hstate{}
 	work := []*ssa.BasicBlock{f.Blocks[0]}
 	if f.Recover != nil {
 		in[f.Recover] = state{}
+		hin[f.Recover] = hstate{}
 		work = append(work, f.Recover)
 	}
 	for iter := 0; len(work) > 0 && iter < 10000; iter++ {
 		b := work[0]
 		work = work[1:]
+		hcur = hclone(hin[b])
 		out := transfer(b, clone(in[b]), false)
+		hout := hcur
 		for _, s := range b.Succs {
-			es := edgeState(b, s, out)
+			es, eh := edgeState(b, s, out, hout)
 			old, seen := in[s]
 			if !seen {
 				in[s] = es
+				hin[s] = eh
 				work = append(work, s)
 				continue
 			}
@@ -627,6 +713,18 @@ func (ra *resAnalysis) checkFunc(f *ssa.Function, evs []consumeEvent, r *core.Re
 					grew = true
 				}
 			}
+			oh := hin[s]
+			for ph, toks := range eh {
+				if oh[ph] == nil {
+					oh[ph] = map[holdTok]bool{}
+				}
+				for t := range toks {
+					if !oh[ph][t] {
+						oh[ph][t] = true
+						grew = true
+					}
+				}
+			}
 			if grew {
 				work = append(work, s)
 			}
@@ -634,6 +732,7 @@ func (ra *resAnalysis) checkFunc(f *ssa.Function, evs []consumeEvent, r *core.Re
 	}
 	for _, b := range f.Blocks {
 		if st, ok := in[b]; ok {
+			hcur = hclone(hin[b])
 			transfer(b, clone(st), true)
 		}
 	}
